@@ -98,7 +98,10 @@ FileSnapRow(r) ==
            \cup {<<"C15", "NewestSnapshotNotListed", <<r.at, r.variant, r.crash, f.name, L>>>> :
                    f \in {x \in F : x.synced /\ x.name \notin names
                                   /\ ~\E i \in 1..Len(L) : known /\ FsNewer(factOf(L[i].name), x)}}
-  IN Judge(V, {})
+      \* C11 relies on the same facts: a snapshot whose Close() returned is the durable base the log is compacted to
+      V11 == {<<"C11", "DurableSnapshotLost", <<v[3][1], v[3][2], v[3][3], v[3][4]>>>> :
+                v \in {x \in V : x[2] \in {"ClosedSnapshotNotListed", "NewestSnapshotNotListed"}}}
+  IN Judge(V \cup V11, {})
 
 \* C15, durability discipline observed with strace on the real store: r.events is the sequence of
 \* <<kind, file>> system-call events of one Create..Close / Create..Cancel
